@@ -436,21 +436,13 @@ impl TriMesh {
             .iter_mut()
             .for_each(|pt| pt.coords.component_mul_assign(scale));
 
+        // NOTE: the pseudo-normals are angle-weighted sums of face normals: a non-uniform scale
+        //       changes the angles and maps normals by the inverse-transpose, and a mirroring
+        //       scale flips the orientation given by the index buffer. Recompute them so they
+        //       are the ones a mesh built from the scaled vertices would have.
         #[cfg(feature = "dim3")]
-        if let Some(pn) = &mut self.pseudo_normals {
-            pn.vertices_pseudo_normal.iter_mut().for_each(|n| {
-                n.component_mul_assign(scale);
-                let _ = n.try_normalize_mut(0.0);
-            });
-            pn.edges_pseudo_normal.iter_mut().for_each(|n| {
-                n[0].component_mul_assign(scale);
-                n[1].component_mul_assign(scale);
-                n[2].component_mul_assign(scale);
-
-                let _ = n[0].try_normalize_mut(0.0);
-                let _ = n[1].try_normalize_mut(0.0);
-                let _ = n[2].try_normalize_mut(0.0);
-            });
+        if self.pseudo_normals.is_some() {
+            self.compute_pseudo_normals();
         }
 
         Self {
